@@ -277,6 +277,9 @@ impl Storm {
                 w.mint_to(mi, iv, fund / 1000 + 1).await;
             }
         }
+        // a second, empty group (program fees enabled, as every new group has them): what a caller
+        // presents when it names a foreign group next to one of this group's banks
+        let _ = w.add_group().await;
         (w, Storm { r, cfg, g, liquidator, steps: 0, accepted: 0 })
     }
 
@@ -350,7 +353,15 @@ impl Storm {
                 w.exec(m, &[i], &[&auth]).await
             }
             67..=71 => {
-                let i = w.ix_accrue(b);
+                // anybody may crank a bank's interest - presenting the bank's own group; now and then
+                // a caller presents another group (whose fee settings differ) next to the bank
+                let i = if w.groups.len() > 1 && self.r.gen_bool(0.12) {
+                    let og = (w.banks[b].group + 1) % w.groups.len();
+                    m.r.count("storm.accruals_presenting_a_foreign_group");
+                    ix::accrue(w.groups[og].key, w.banks[b].key)
+                } else {
+                    w.ix_accrue(b)
+                };
                 w.exec(m, &[i], &[]).await
             }
             72..=74 => {
